@@ -90,6 +90,9 @@ fn main() {
                     std::process::exit(2);
                 }
             }
+            for l in defs::ORACLE_FAILS.lock().unwrap().drain(..) {
+                out.push(l);
+            }
             out.write(&args[5]);
         }
         "run" => {
